@@ -117,10 +117,10 @@ Proof.
     + intros H. destruct (IH H) as [H1|H1]; auto.
 Qed.
 
-Lemma indexed_loop_sound parse cache odb :
+Lemma indexed_loop_sound noop parse cache odb :
   closed parse odb -> agree parse cache odb ->
   forall dirs x1 y x2,
-  indexed_loop parse cache dirs x1 = inr (y, x2) ->
+  indexed_loop noop parse cache dirs x1 = inr (y, x2) ->
   (forall d, In d dirs -> has odb d = true /\ is_dir_oid d = true) ->
   (forall o, ix_has x1 o = true -> has odb o = true) ->
   (forall o, In o y -> has odb o = true) /\ (forall o, ix_has x2 o = true -> has odb o = true).
@@ -128,7 +128,7 @@ Proof.
   intros Hcl Hag. induction dirs as [|d r IH]; simpl; intros x1 y x2 H Hd Hx.
   - inversion H; subst. split; [intros o []|auto].
   - destruct (load parse cache d) as [l| |] eqn:EL; try discriminate.
-    + destruct (indexed_loop parse cache r (if ix_has x1 d then x1 else ix_update d l x1))
+    + destruct (indexed_loop noop parse cache r (if noop || ix_has x1 d then x1 else ix_update d l x1))
         as [k|[y' x']] eqn:ER; [discriminate|]. inversion H; subst y x2.
       destruct (Hd d (or_introl eq_refl)) as [Hhd Hdd].
       assert (Hl : forall f, In f l -> has odb f = true).
@@ -138,15 +138,15 @@ Proof.
         rewrite <- (Hag d bc bo Lc Lo). auto. }
       destruct (IH _ _ _ ER) as [A B].
       * intros; apply Hd; right; auto.
-      * destruct (ix_has x1 d); auto. intros o Ho. apply ix_has_update in Ho.
+      * destruct (noop || ix_has x1 d); auto. intros o Ho. apply ix_has_update in Ho.
         destruct Ho as [Ho|[->|Ho]]; auto.
       * split; auto. intros o Ho. apply in_app_or in Ho. destruct Ho as [Ho|[<-|Ho]]; auto.
     + apply (IH _ _ _ H); auto.
 Qed.
 
 (* ---- status ---- *)
-Lemma status_ix_spec parse odb cache ix sh req ex miss ix' :
-  status_ix parse odb cache ix sh req = inr (ex, miss, ix') ->
+Lemma status_ix_spec noop parse odb cache ix sh req ex miss ix' :
+  status_ix noop parse odb cache ix sh req = inr (ex, miss, ix') ->
   exists h0, collect parse cache sh req = inr h0 /\
     (forall o, In o ex \/ In o miss <-> In o h0) /\
     (forall o, In o miss -> has odb o = false) /\
@@ -161,7 +161,7 @@ Proof.
   destruct ix as [x|].
   - set (rdirs := dedup (filter is_dir_oid req)) in *.
     set (x1 := match rdirs with [] => x | _ :: _ => if forallb (has odb) (ix_dirs x) then x else [] end) in *.
-    destruct (indexed_loop parse cache (filter (has odb) rdirs) x1) as [k|[y x2]] eqn:EL; [discriminate|].
+    destruct (indexed_loop noop parse cache (filter (has odb) rdirs) x1) as [k|[y x2]] eqn:EL; [discriminate|].
     inversion H; subst ex miss ix'. clear H.
     split; [|split].
     + intros o. rewrite !in_app_iff, !filter_In, !negb_true_iff, !dedup_In.
@@ -172,7 +172,7 @@ Proof.
       { unfold x1. destruct (Hx x eq_refl) as [[Hne Hfb]|Hsd].
         - fold rdirs in Hne. destruct rdirs; [congruence|]. rewrite Hfb. intros o' H'. discriminate.
         - destruct rdirs; auto. destruct (forallb (has odb) (ix_dirs x)); auto. intros o' H'. discriminate. }
-      destruct (indexed_loop_sound parse cache odb Hcl Hag _ _ _ _ EL) as [A B]; auto.
+      destruct (indexed_loop_sound noop parse cache odb Hcl Hag _ _ _ _ EL) as [A B]; auto.
       { intros d Hd. apply filter_In in Hd. destruct Hd as [Hd1 Hd2]. split; auto.
         unfold rdirs in Hd1. apply (proj1 (dedup_In _ _)) in Hd1. apply filter_In in Hd1. tauto. }
       apply in_app_or in Ho. destruct Ho as [Ho|Ho].
@@ -218,13 +218,13 @@ Record Pre (i : t_in) (new missing : list oid) : Prop := {
 (* the destination status does not invent objects *)
 Definition status_sound (i : t_in) : Prop :=
   forall dex dmiss dix',
-    status_ix (t_parse i) (t_dst i) (status_cache i) (t_dix i) (t_shallow i) (t_req i) = inr (dex, dmiss, dix') ->
+    status_ix (t_dnoop i) (t_parse i) (t_dst i) (status_cache i) (t_dix i) (t_shallow i) (t_req i) = inr (dex, dmiss, dix') ->
     forall o, In o dex -> has (t_dst i) o = true.
 
 Lemma status_sound_noindex i : t_dix i = None -> status_sound i.
 Proof.
   intros E dex dmiss dix' H o Ho.
-  destruct (status_ix_spec _ _ _ _ _ _ _ _ _ H) as [hd [_ [_ [_ S]]]].
+  destruct (status_ix_spec _ _ _ _ _ _ _ _ _ _ H) as [hd [_ [_ [_ S]]]].
   unfold status_ix in H. rewrite E in H.
   destruct (collect (t_parse i) (status_cache i) (t_shallow i) (t_req i)); [discriminate|].
   inversion H; subst. apply filter_In in Ho. tauto.
@@ -233,7 +233,7 @@ Lemma status_sound_index i :
   closed (t_parse i) (t_dst i) -> coherent i -> ix_sound i -> status_sound i.
 Proof.
   intros Hcl [_ Hcd] Hix dex dmiss dix' H o Ho.
-  destruct (status_ix_spec _ _ _ _ _ _ _ _ _ H) as [hd [_ [_ [_ S]]]].
+  destruct (status_ix_spec _ _ _ _ _ _ _ _ _ _ H) as [hd [_ [_ [_ S]]]].
   apply S; auto. intros x Ex. unfold ix_sound in Hix. rewrite Ex in Hix. auto.
 Qed.
 
@@ -253,18 +253,18 @@ Lemma compare_status_pre i st dix six :
   compare_status i = inr (st, dix, six) -> Pre i (c_new st) (c_missing st).
 Proof.
   intros Hflat Hcoh Hcl Hix Hreq. unfold compare_status.
-  destruct (status_ix (t_parse i) (t_dst i) (status_cache i) (t_dix i) (t_shallow i) (t_req i))
+  destruct (status_ix (t_dnoop i) (t_parse i) (t_dst i) (status_cache i) (t_dix i) (t_shallow i) (t_req i))
     as [k|[[dex dmiss] dix']] eqn:ED; [discriminate|].
   assert (HP3 : forall D l l', find_tree i D = Some l -> listing (t_parse i) (t_src i) D = Some l' -> l' = l).
   { intros D l l'. now apply find_tree_src. }
   destruct dmiss as [|m0 mr] eqn:Edm.
   - intros H. inversion H; subst. simpl. constructor; auto; intros; simpl in *; contradiction.
   - rewrite <- Edm in *.
-    destruct (status_ix (t_parse i) (t_src i) (t_src i) (t_six i) (t_shallow i) (t_req i))
+    destruct (status_ix (t_snoop i) (t_parse i) (t_src i) (t_src i) (t_six i) (t_shallow i) (t_req i))
       as [k|[[sex smiss] six']] eqn:ES; [discriminate|].
     intros H. inversion H; subst st dix six. simpl. clear H.
-    destruct (status_ix_spec _ _ _ _ _ _ _ _ _ ED) as [hd [Cd [Dcov [Dmiss Dsound]]]].
-    destruct (status_ix_spec _ _ _ _ _ _ _ _ _ ES) as [hs [Cs [Scov [Smiss _]]]].
+    destruct (status_ix_spec _ _ _ _ _ _ _ _ _ _ ED) as [hd [Cd [Dcov [Dmiss Dsound]]]].
+    destruct (status_ix_spec _ _ _ _ _ _ _ _ _ _ ES) as [hs [Cs [Scov [Smiss _]]]].
     destruct Hcoh as [Hcs Hcd].
     assert (Ehs : hd = hs) by (exact (collect_agree _ _ _ _ Hcs _ _ _ Cd Cs)). subst hs.
     assert (Dsound' : forall o, In o dex -> has (t_dst i) o = true).
@@ -315,19 +315,19 @@ Lemma compare_status_facts i st dix six :
   compare_status i = inr (st, dix, six) -> exists h, StatusFacts i st h.
 Proof.
   intros Hcoh Hsound. unfold compare_status.
-  destruct (status_ix (t_parse i) (t_dst i) (status_cache i) (t_dix i) (t_shallow i) (t_req i))
+  destruct (status_ix (t_dnoop i) (t_parse i) (t_dst i) (status_cache i) (t_dix i) (t_shallow i) (t_req i))
     as [k|[[dex dmiss] dix']] eqn:ED; [discriminate|].
-  destruct (status_ix_spec _ _ _ _ _ _ _ _ _ ED) as [hd [Cd [Dcov [Dmiss _]]]].
+  destruct (status_ix_spec _ _ _ _ _ _ _ _ _ _ ED) as [hd [Cd [Dcov [Dmiss _]]]].
   destruct (collect_spec _ _ _ _ _ Cd) as [CA [CB CC]].
   assert (Dsound' : forall o, In o dex -> has (t_dst i) o = true) by (intros o; eapply Hsound; eauto).
   destruct dmiss as [|m0 mr] eqn:Edm.
   - intros H. inversion H; subst. exists hd. constructor; simpl; auto; try (intros o []).
     intros o Ho. left. destruct (proj2 (Dcov o) Ho) as [H1|[]]. auto.
   - rewrite <- Edm in *.
-    destruct (status_ix (t_parse i) (t_src i) (t_src i) (t_six i) (t_shallow i) (t_req i))
+    destruct (status_ix (t_snoop i) (t_parse i) (t_src i) (t_src i) (t_six i) (t_shallow i) (t_req i))
       as [k|[[sex smiss] six']] eqn:ES; [discriminate|].
     intros H. inversion H; subst st dix six. clear H.
-    destruct (status_ix_spec _ _ _ _ _ _ _ _ _ ES) as [hs [Cs [Scov [Smiss _]]]].
+    destruct (status_ix_spec _ _ _ _ _ _ _ _ _ _ ES) as [hs [Cs [Scov [Smiss _]]]].
     destruct Hcoh as [Hcs Hcd].
     assert (Ehs : hd = hs) by (exact (collect_agree _ _ _ _ Hcs _ _ _ Cd Cs)). subst hs.
     exists hd. constructor; simpl; auto.
